@@ -275,6 +275,16 @@ def synthetic_messages(seed, n, collide=True):
                             'truth': truth, 'twin': '%d:%d' % (seed, i)})
             continue
         spec = gen_spec(rng, nested_hex=small if rng.random() < 0.5 else None)
+        if collide and i % 23 == 13:
+            # a valid message whose sections 0-3 alone exceed 64 KiB (a large local section 2): whatever
+            # reads only a head of the input to get at the metadata meets its limit
+            spec['sec2'] = bytes(rng.randrange(256) for _ in range(rng.choice([65530, 65540, 66000, 70001]))
+                                 ).replace(b'BUFR', b'BUFX').hex()
+            msg, truth = bufrgen.write_message(spec)
+            if len(msg) < (1 << 24):
+                out.append({'ref': 'synth:%d:%d:large-header' % (seed, i), 'hex': msg.hex(), 'src': 'synth',
+                            'truth': truth})
+            continue
         msg, truth = bufrgen.write_message(spec)
         if len(msg) > MAX_MSG:
             continue
@@ -392,6 +402,24 @@ def gen_operator_spec(rng, version=None, rv=None, force_n=None, perm=False):
             else:
                 g += [221000 + 3, rng.choice([e for e in nums if 1 <= e // 1000 <= 9] or nums),
                       rng.choice(nums), rng.choice(nums)]
+            # a replication INSIDE the operator's scope (opened and closed at the same level around it):
+            # 201YYY / 202YYY / 207YYY e (1XX00n | 1XX000 031001) e.. e 20X000
+            if r < 0.45 and rng.random() < 0.35:
+                opn, cls = g[0], g[-1]
+                inner = [rng.choice(nums) for _ in range(rng.randint(1, 2))]
+                if gi == 0 and not ids and rng.random() < 0.6:
+                    # delayed: only as the first data item, where the factor's bits are known (the operator
+                    # may widen the factor: 16 bits of which only the low two are set keep every reading small)
+                    n = rv.choice([0, 1, 2, 3]) if force_n is None else force_n
+                    g = [opn, 100000 + len(inner) * 1000, 31001] + inner + [rng.choice(nums), cls]
+                    factor_prefix = bytes([0, n, 0, n])
+                    has_factor = True
+                else:
+                    g = [opn, rng.choice(nums), 100000 + len(inner) * 1000 + rng.randint(1, 3)] + inner + [cls]
+                ids += g
+                if rng.random() < 0.5:
+                    ids.append(rng.choice(els))
+                continue
             # the operator is opened and closed inside one replication scope: wrap the whole group.
             # A delayed replication only as the very first thing, where its factor sits at bit 0.
             w = rng.random()
@@ -657,8 +685,8 @@ def operator_messages(seed, n):
     # compressed / multi-subset variants of the same programs: produced by the library's own
     # (interpreting) encoder from the decoded values, in a pristine child each; they carry no ground
     # truth and serve the differential oracles only (history vs fresh, compiled vs interpreted)
-    base = [e for k, e in enumerate(out) if k % 2 == 0 and (not e.get('twin') or e['twin'].startswith('d'))
-            and not e['opkind'].endswith('-data-twin')]
+    base = [e for k, e in enumerate(out) if (k % 2 == 0 or e['opkind'].endswith('-data-twin')) and
+            (not e.get('twin') or e['twin'].startswith('d'))]
     res = core.pmap('compress_variant', [{'hex': e['hex'], 'seed': seed + k} for k, e in enumerate(base)], limit=120)
     for e, (st, r) in zip(base, res):
         if st == 'ok' and r:
@@ -683,13 +711,17 @@ def operator_messages(seed, n):
         if len(g) >= 2:
             pick = rng.sample(g, min(len(g), rng.choice([2, 2, 3])))
             jobs.append((tw, g[0], [x['hex'] for x in pick]))
-    res = core.pmap('merge_variant', [{'hexes': hx} for _tw, _e, hx in jobs], limit=120)
-    for (tw, e0, hx), (st, r) in zip(jobs, res):
+    # ... and the same subsets COMPRESSED where the library's encoder accepts them (subsets whose bitmaps or
+    # values differ but whose structure is the same)
+    jobs = [(tw, e0, hx, False) for tw, e0, hx in jobs] + [(tw, e0, hx, True) for tw, e0, hx in jobs]
+    res = core.pmap('merge_variant', [{'hexes': hx, 'compressed': c} for _tw, _e, hx, c in jobs], limit=120)
+    for (tw, e0, hx, c), (st, r) in zip(jobs, res):
         if st == 'ok' and r:
             raw = bytes.fromhex(r['hex'])
             if raw.find(b'BUFR', 1) < 0 and len(raw) <= MAX_MSG:
-                out.append({'ref': e0['ref'] + ':m%d' % len(hx), 'hex': r['hex'], 'src': 'operator',
-                            'opkind': e0['opkind'].replace('-data-twin', '') + '-multi-subset', 'twin': tw})
+                out.append({'ref': e0['ref'] + ':m%d%s' % (len(hx), 'c' if c else ''), 'hex': r['hex'], 'src': 'operator',
+                            'opkind': e0['opkind'].replace('-data-twin', '') + '-multi-subset' +
+                            ('-compressed' if c else ''), 'twin': tw})
     return out
 
 
@@ -704,7 +736,7 @@ def _merge_variant(arg):
                  for h in arg['hexes']]
         data = datas[0]
         data[-3][2] = len(datas)
-        data[-3][4] = False
+        data[-3][4] = bool(arg.get('compressed'))
         data[-2][2] = [d[-2][2][0] for d in datas]
         out = Encoder().process(data, wire_template_data=False)
         raw = bytes(out.serialized_bytes)
@@ -857,9 +889,9 @@ def classify(entry):
     w = bufrgen.walk(raw)
     emb = raw.find(b'BUFR', 1) >= 0
     emb7 = raw.find(b'7777', 0, len(raw) - 4) >= 0
-    return '%s-e%d%s%s%s%s%s' % (entry['src'][0], w['edition'], 'c' if w['compressed'] else 'u',
-                                 '2' if 2 in w['sections'] else '', 'B' if emb else '', 'S' if emb7 else '',
-                                 'D' if w['category'] == 11 else '')
+    return '%s-e%d%s%s%s%s%s%s' % (entry['src'][0], w['edition'], 'c' if w['compressed'] else 'u',
+                                   '2' if 2 in w['sections'] else '', 'B' if emb else '', 'S' if emb7 else '',
+                                   'D' if w['category'] == 11 else '', 'L' if len(raw) > 60000 else '')
 
 
 def admit_all(entries, want_values=False):
